@@ -3,3 +3,4 @@ pub mod palette;
 pub mod re;
 pub mod screen;
 pub mod ctlseq;
+pub mod regex;
